@@ -867,6 +867,9 @@ def getslice(I, ctx, o, k):
 
 def setitem(I, ctx, o, k, v):
     from .interp import hkey
+    from . import nparr
+    if isinstance(o, nparr.NArr):
+        return nparr.narr_setitem(I, ctx, o, k, v)
     if isinstance(o, ListVal):
         if isinstance(k, tuple) and k and k[0] == "slice":
             _, lo, hi, _s = k
